@@ -18,6 +18,7 @@ def run(ck):
     replies.spec_h11c_connect(ck)
     codec.spec_socks_response_roundtrip(ck, 5)
     codec.spec_socks_response_roundtrip(ck, 4)
+    replies.spec_socks_connector(ck)
     # a reachable panic inside a reply path means the client gets no complete reply: those sites count for C06 as well
     ck.post_filter = lambda o: (o.label.startswith('C06/') or o.status in ('undecided', 'vacuous', 'inconclusive', 'violated')
                                 or (o.target or '').startswith(('socks Callback', 'ConnectCallback', 'FrameChannelCallback', 'HttpResponse', 'SocksResponse')))
